@@ -102,7 +102,7 @@ func c05Contract(ref string) string {
   access(all) let tab: {String: Int}
   access(all) view fun enc(_ k: Int): String { return (10000 + k).toString().concat(self.pad) }
   access(all) view fun dec(_ e: String): Int { return self.tab[e] ?? -999 }`
-		init = "self.pad = \"" + strings.Repeat("x", 295) + "\"; self.tab = {}; var k = 0; while k <= 120 { self.tab[self.enc(k)] = k; k = k + 1 }"
+		init = "self.pad = \"" + strings.Repeat("x", 295) + "\"; self.tab = {}; var k = 0; while k <= 12 { self.tab[self.enc(k)] = k; k = k + 1 }"
 	}
 	s := `access(all) contract T {` + encdec + `
   access(all) struct Inner {
@@ -258,7 +258,7 @@ func obsStmt(n c05names) string {
 	for _, p := range n.ps {
 		ps = append(ps, fmt.Sprintf("acct.storage.borrow<&T.Outer>(from: /storage/%s)", p))
 	}
-	return fmt.Sprintf("log(T.obs([%s], [%s], r, q, [%s]))", strings.Join(os, ", "), strings.Join(is, ", "), strings.Join(ps, ", "))
+	return fmt.Sprintf("log(T.obs([%s] as [&T.Outer], [%s] as [&T.Inner], r, q, [%s] as [&T.Outer?]))", strings.Join(os, ", "), strings.Join(is, ", "), strings.Join(ps, ", "))
 }
 
 func oRoot(name string) string {
